@@ -1,5 +1,8 @@
 """Importable classes for generated world files (C15).  Every constructor
 records its arguments; callbacks report to LOG (reset by the engine)."""
+import copy
+import threading
+
 import desper
 
 LOG = []
@@ -17,6 +20,23 @@ class Plain(_Rec):
 
 class Plain2(_Rec):
     pass
+
+
+class Mutating(_Rec):
+    """Keeps a private copy of the containers it was given, then uses the
+    originals as its own working state (appends to the lists, adds a key to
+    the dictionaries) - as a component that owns its arguments may."""
+
+    def __init__(self, *args, **kwargs):
+        def keep(a):
+            return copy.deepcopy(a) if isinstance(a, (list, dict)) else a
+        self.args = tuple(keep(a) for a in args)
+        self.kwargs = {k: keep(a) for k, a in kwargs.items()}
+        for a in list(args) + list(kwargs.values()):
+            if isinstance(a, list):
+                a.append('mutated by the component')
+            elif isinstance(a, dict):
+                a['mutated'] = True
 
 
 @desper.event_handler('on_add', 'on_world_load')
@@ -66,6 +86,25 @@ class ProcLate(Proc1):
 
 OBJ = object()
 NUM = 42
+LOCK = threading.Lock()         # importable, not copyable
+
+
+def _gen():
+    yield 1
+
+
+GEN = _gen()                    # importable, not copyable
+
+
+class _NoCopy:
+    def __deepcopy__(self, memo):
+        raise RuntimeError('this object must not be copied')
+
+    def __copy__(self):
+        raise RuntimeError('this object must not be copied')
+
+
+NOCOPY = _NoCopy()
 TEXT = 'a fixture string'
 
 
